@@ -127,6 +127,10 @@ def gen_history(rng, nops, acct):
     return {"kind": "hist", "cfg": cfg, "bases": bases, "preload": preload, "ops": ops, "acct": acct}
 
 
+_SYSTEMS_MADE = [0]
+_OTHER_SYSTEMS = []
+
+
 def make_system(cfg):
     from architecture_simulator.uarch.memory.memory import Memory, AddressingType
     from architecture_simulator.uarch.memory.write_through_memory_system import WriteThroughMemorySystem
@@ -135,7 +139,18 @@ def make_system(cfg):
 
     pm = RiscvPerformanceMetrics()
     cls = WriteThroughMemorySystem if cfg["wt"] else WriteBackMemorySystem
+    _SYSTEMS_MADE[0] += 1
+    nb = _SYSTEMS_MADE[0] % 5 == 0
+    if nb:
+        # another memory system of the other write policy / another geometry lives in the same process
+        ocls = WriteBackMemorySystem if cfg["wt"] else WriteThroughMemorySystem
+        _OTHER_SYSTEMS.append(ocls(Memory(AddressingType.BYTE, 32, True, range(2**14, 2**32)), 1 - min(cfg["ib"], 1), min(cfg["bb"] + 1, 3), 2, RiscvPerformanceMetrics(), cfg["pen"] + 1, "plru" if cfg["policy"] == "lru" else "lru"))
     m = cls(Memory(AddressingType.BYTE, 32, True, range(2**14, 2**32)), cfg["ib"], cfg["bb"], cfg["assoc"], pm, cfg["pen"], cfg["policy"])
+    if nb:
+        o_ = _OTHER_SYSTEMS[-1]
+        o_.write_word(0x4000, __import__("fixedint").UInt32(0xA5A5A5A5))
+        o_.read_word(0x4010)
+        del _OTHER_SYSTEMS[:-3]
     return m, pm
 
 
